@@ -155,9 +155,11 @@ func opSweep(w *World, s *Step) (string, string) {
 			faults = append(faults, Fault{Kind: "truncate", Len: l})
 		}
 	case "skshrink":
+		fill := NewRng(uint64(n) * 977).Bytes(40)
 		for k := 0; k <= s.N && 32+k < n; k++ {
 			faults = append(faults, Fault{Kind: "skshrink", Len: k})
 			faults = append(faults, Fault{Kind: "skshrink_tail", Len: k})
+			faults = append(faults, Fault{Kind: "skshort_unknown", Len: k, Val: 49 + k%200, Data: fill[:(k*7)%40]})
 		}
 	case "firsttype":
 		for v := 0; v < 256; v++ {
@@ -340,7 +342,7 @@ func genC02(r *Rng, idx int, tier string) *Scenario {
 	for k := r.Intn(3); k > 0; k-- {
 		id := nmsg + 10 + k
 		from := Pick(r, "I", "R")
-		sc.Steps = append(sc.Steps, Step{Op: "ref_send_malformed", SA: 0, Dgram: id, From: from, Src: Pick(r, "badpad", "ivonly", "misaligned", "shortbody"), SpiI: r.U64()},
+		sc.Steps = append(sc.Steps, Step{Op: "ref_send_malformed", SA: 0, Dgram: id, From: from, Src: Pick(r, "badpad", "ivonly", "misaligned", "shortbody", "badinner", "innerlen"), SpiI: r.U64()},
 			Step{Op: "deliver", Dgram: id, Rx: rx(), Obj: obj()})
 	}
 	// seeded single faults
